@@ -58,7 +58,7 @@ func init() {
 	register(&Def{
 		ID:          "C05",
 		Technique:   "single-writer slot typestate, stop-function path queries, running-state facts at client sends, goroutine accounting against the lifetime WaitGroup, lock-state facts at hook calls, constant tables of filterError vs ErrorCode",
-		Explanation: "Decides: (D1) at most one completion per request: slot writes follow lookup-and-remove in one critical section, slots are closed only by their single receiver after a successful receive; (D2) at least one after an ending event: every registration starts a context watcher with a guaranteed cancel, and every path from Close in the stop function cancels all pending entries and the callback context; Close is guarded, once, and coupled with the stop cause, which is non-nil at every call; (D3) both client Send sites require the running state established in the same critical section; (D4) filterError maps exactly the codes ErrorCode assigns to context.Canceled/DeadlineExceeded back to them; (D5) OnCancel runs with the lock definitely released, after the Response settled, from a closure created only after this goroutine wrote the slot; OnStop runs with the lock released, only from the closure the stop function returns after actually closing; (D6) reader, per-message delivery and callback goroutines are registered with the WaitGroup that Close waits on before every return. (D7) the waiter that settles a Response calls its cancel function on every path; the delivery loop has no early exit. (D8) the loop that waits for the responses of a batch has no early exit; the table of pending responses is assigned only at construction. (D9) option accessors hand the user's callbacks on: they neither call them nor wrap them in a conditional call. Also decided: the client's reader performs no channel operation, semaphore acquisition or wait between receives. From every Lock of the client mutex no path reaches a return without an Unlock (direct, by a callee, or deferred).",
+		Explanation: "Decides: (D1) at most one completion per request: slot writes follow lookup-and-remove in one critical section, slots are closed only by their single receiver after a successful receive; (D2) at least one after an ending event: every registration starts a context watcher with a guaranteed cancel, and every path from Close in the stop function cancels all pending entries and the callback context; Close is guarded, once, and coupled with the stop cause, which is non-nil at every call; (D3) both client Send sites require the running state established in the same critical section; (D4) filterError maps exactly the codes ErrorCode assigns to context.Canceled/DeadlineExceeded back to them; (D5) OnCancel runs with the lock definitely released, after the Response settled, from a closure created only after this goroutine wrote the slot; OnStop runs with the lock released, only from the closure the stop function returns after actually closing; (D6) reader, per-message delivery and callback goroutines are registered with the WaitGroup that Close waits on before every return. (D7) the waiter that settles a Response calls its cancel function on every path; the delivery loop has no early exit. (D8) the loop that waits for the responses of a batch has no early exit; the table of pending responses is assigned only at construction. (D9) option accessors hand the user's callbacks on: they neither call them nor wrap them in a conditional call. Also decided: the client's reader performs no channel operation, semaphore acquisition or wait between receives. From every Lock of the client mutex no path reaches a return without an Unlock (direct, by a callee, or deferred). Also decided: only the stop function cancels the pending table wholesale; the reader reaches no further Recv once it has found the client stopped.",
 		NotDecided:  []string{"which of reply / context end wins a race", "absence of blocking in user hooks; timing"},
 		Assumptions: []string{"context cancellation semantics", "sync.WaitGroup semantics"},
 		RuleText:    ruleText,
